@@ -26,6 +26,8 @@ def reader_population(n, seed, ndims=(2, 3), payloads=("random", "special"), max
                  base_blocks=(1, 3) if bf >= 4 else (2, 5))
         if rng.random() < 0.3:
             g["nfiles"] = rng.choice([1, 2, 7])
+        if i % 16 == 9 and max_fields >= 8:      # as many fields as real output has; 3-digit component counts
+            g["nfields"] = [38, 101][(i // 16) % 2]
         f = dict(ref_ratio_extra=rng.choice([0, 0, 1, 3]), trailing_blank=rng.random() < 0.7,
                  close_blank=rng.random() < 0.3, floatfmt=rng.choice(["repr", "17g"]))
         out.append({"gen": g, "fmt": f})
